@@ -43,6 +43,7 @@ fn main() {
     // Quiet panics: they are captured and reported as outputs.
     std::panic::set_hook(Box::new(|_| {}));
     std::fs::create_dir_all(&a.out).unwrap();
+    let _ = util::main_stack();
     let code = comp::run(&a);
     std::process::exit(code);
 }
